@@ -17,7 +17,7 @@ package config
 //@ extern $yield@(*StringTranslator).AsLocalToRemoteBiMap$1
 //@   assigns nothing
 //@ contract (*StringTranslator).AsLocalToRemoteBiMap$1
-//@   shape sig=(yield func(string, string) bool)();loops=range;lits=0;fv=yield
+//@   shape sig=(yield func(string, string) bool)();loops=range;lits=0;fv=yield;outerlits=1
 //@   props C13
 //@   requires config != nil
 //@   counts yield
@@ -28,7 +28,7 @@ package config
 //@ extern $yield@(*SATranslationConfig).AsLocalToRemoteSATranslation$1
 //@   assigns nothing
 //@ contract (*SATranslationConfig).AsLocalToRemoteSATranslation$1
-//@   shape sig=(yield func(string, string) bool)();loops=range;lits=0;fv=yield
+//@   shape sig=(yield func(string, string) bool)();loops=range;lits=0;fv=yield;outerlits=1
 //@   props C14 C13
 //@   counts yield
 //@   callpre yield: @pair_as_configured: $0 == attrPair.LocalName && $1 == attrPair.RemoteName
